@@ -236,6 +236,31 @@ def last_def_before(fn, name, lineno):
     return best
 
 
+def resolved_values(fn, e, depth=4):
+    """Values an expression may denote when plain local names are followed through their assignments (`top = sill` / `top = bounds[1]` in
+    the two arms of an if -> both values; a helper-inlining temporary `low__h1 = x` -> x).  Returns [expression node]; names with no or
+    non-simple definitions (loop variables, parameters, augmented) stay as they are."""
+    if depth == 0 or not isinstance(e, ast.Name):
+        return [e]
+    params = {a.arg for n in ast.walk(fn) if isinstance(n, ast.arguments) for a in n.posonlyargs + n.args + n.kwonlyargs}
+    if e.id in params:
+        return [e]
+    defs = []
+    for n in ast.walk(fn):
+        if isinstance(n, ast.Assign) and len(n.targets) == 1 and isinstance(n.targets[0], ast.Name) and n.targets[0].id == e.id:
+            defs.append(n.value)
+        elif isinstance(n, (ast.AugAssign, ast.For, ast.comprehension, ast.NamedExpr, ast.With)) and any(isinstance(x, ast.Name) and x.id == e.id and isinstance(x.ctx, ast.Store) for x in ast.walk(n.target if hasattr(n, "target") else n)):
+            return [e]
+        elif isinstance(n, ast.Assign) and any(isinstance(x, ast.Name) and x.id == e.id for t in n.targets if isinstance(t, (ast.Tuple, ast.List)) for x in t.elts):
+            return [e]
+    if not defs:
+        return [e]
+    out = []
+    for d in defs:
+        out += resolved_values(fn, d, depth - 1)
+    return out
+
+
 def cond_defaults(stmts, var):
     """[(test text, value node)] of the top-level statements `if test: var = value` (no else).  The loader normalises the
     conditional-expression spelling `var = value if test else var` to this form, so both are covered."""
@@ -499,13 +524,16 @@ def none_default_rule(ctx, rule, prefixes, floor):
         dfl = dict(zip([x.arg for x in pos[len(pos) - len(a.defaults):]], a.defaults))
         dfl.update({x.arg: d for x, d in zip(a.kwonlyargs, a.kw_defaults) if d is not None})
         for nm, d in dfl.items():
-            if isinstance(d, ast.Constant) and d.value is None:
+            is_none = isinstance(d, ast.Constant) and d.value is None
+            is_num = (isinstance(d, ast.Constant) and isinstance(d.value, (int, float)) and not isinstance(d.value, bool)) or ast.unparse(d) in ("np.nan", "np.inf", "-np.inf")
+            if is_none or is_num:
                 n += 1
                 for u in truthiness_uses(f, nm):
-                    ctx.violation(rule, "%s::%s" % (m.relpath, q), "parameter `%s` defaults to None ('not given') but is tested by truthiness in `%s`: a given value of 0 / 0.0 / an empty array is then treated as missing"
-                                  % (nm, " ".join(ast.unparse(u).split())[:90]), "truthy:%s:%s" % (nm, " ".join(ast.unparse(u).split())[:60]))
+                    why = "defaults to None ('not given')" if is_none else "is a number (default %s)" % ast.unparse(d)
+                    ctx.violation(rule, "%s::%s" % (m.relpath, q), "parameter `%s` %s but is tested by truthiness in `%s`: a given value of 0 / 0.0 / an empty array is then treated as missing"
+                                  % (nm, why, " ".join(ast.unparse(u).split())[:90]), "truthy:%s:%s" % (nm, " ".join(ast.unparse(u).split())[:60]))
     ctx.floor(rule, "None-default parameters inspected", n, floor)
-    ctx.ok(rule, ",".join(prefixes), "%d None-default parameters are recognised with `is None` only" % n)
+    ctx.ok(rule, ",".join(prefixes), "%d None-default / numeric parameters are never tested by truthiness" % n)
 
 
 def call_arg(call, index, name):
